@@ -165,10 +165,10 @@ func mutateText(t *rapid.T, text string, toks []string) (string, string) {
 
 func init() {
 	ev.Register(&ev.Prop{
-		ID:    "C14",
-		Rule:  "inputs: (i) every prefix (truncation at every byte offset) of the corpus scripts, exhaustively; (ii) generated: corpus scripts and grammar-complete generator output under random layouts, mutated by truncation, token deletion/duplication/swap/insertion/replacement, splices of hostile constants (huge numerals, 08%, 1/0, NUL, invalid UTF-8, non-ASCII, unbalanced brackets and comments), byte-range deletion, token soups, token prefixes, double edits; oracle: no panic from Parse / GetParsingErrors / ParseErrorsToString; the reference recogniser (independent lexer + recursive-descent parser written from Numscript.g4) says valid => zero errors, invalid => >= 1 error (inputs on which the lexer emulation abstains skip this clause); every error starts inside the text or at its end; non-trivial = the input is not a seed and is invalid, or contains non-ASCII / a numeral >= 2^63 / a changed layout",
-		New:   func() any { return &TextCase{} },
-		Check: checkC14,
+		ID:        "C14",
+		Rule:      "inputs: (i) every prefix (truncation at every byte offset) of the corpus scripts, exhaustively; (ii) generated: corpus scripts and grammar-complete generator output under random layouts, mutated by truncation, token deletion/duplication/swap/insertion/replacement, splices of hostile constants (huge numerals, 08%, 1/0, NUL, invalid UTF-8, non-ASCII, unbalanced brackets and comments), byte-range deletion, token soups, token prefixes, double edits; oracle: no panic from Parse / GetParsingErrors / ParseErrorsToString; the reference recogniser (independent lexer + recursive-descent parser written from Numscript.g4) says valid => zero errors, invalid => >= 1 error (inputs on which the lexer emulation abstains skip this clause); every error starts inside the text or at its end; non-trivial = the input is not a seed and is invalid, or contains non-ASCII / a numeral >= 2^63 / a changed layout",
+		New:       func() any { return &TextCase{} },
+		Check:     checkC14,
 		Enumerate: enumC14,
 	})
 	Generators["C14"] = func(t *rapid.T, tier string) any {
@@ -335,10 +335,15 @@ func firstLines(s string, n int) string {
 type C15Case struct {
 	Script *gen.Script `json:"script"`
 	Seps   []string    `json:"seps"`
+	// Glue: comments are also written directly after tokens ending in A-Z, 0-9 or '/'
+	Glue bool `json:"glue,omitempty"`
 }
 
 func (c *C15Case) Display() any {
 	s := c.Script.Clone()
+	if c.Glue {
+		return map[string]any{"text": gen.Print(s, &gen.GlueLayout{Seps: c.Seps}).Text, "glue": true}
+	}
 	return map[string]any{"text": gen.Print(s, &gen.ListLayout{Seps: c.Seps}).Text}
 }
 
@@ -354,7 +359,15 @@ func init() {
 		if tier == "thorough" {
 			g.MaxDepth = 4
 		}
-		return &C15Case{Script: g.Script(), Seps: gen.RandomLayout(t).Seps}
+		c := &C15Case{Script: g.Script(), Seps: gen.RandomLayout(t).Seps}
+		if gen.Chance(t, "glue", 6) {
+			c.Glue = true
+			c.Seps = nil
+			for i, n := 0, 2+gen.Uniform(t, "glue.n", 6); i < n; i++ {
+				c.Seps = append(c.Seps, gen.Pick(t, "glue.sep", []string{" ", " ", "/* c */", "/**/", "// c\n", " /* d */ ", "\n"}))
+			}
+		}
+		return c
 	}
 }
 
@@ -374,9 +387,50 @@ func parseAndConvert(text string) (s *gen.Script, nerr int, firstErr string, pan
 	return
 }
 
+// checkGlued: a comment written directly after a token that ends in A-Z, 0-9 or '/' must
+// not change the tree either ("comments between any two tokens").
+func checkGlued(c *C15Case, v *ev.Verdict) *ev.Verdict {
+	want := c.Script.Clone()
+	lay := &gen.GlueLayout{Seps: c.Seps}
+	p := gen.Print(want, lay)
+	if lay.Glued == 0 {
+		v.Skipped = "no comment ended up glued to a token ending in A-Z, 0-9 or '/'"
+		return v
+	}
+	v.Label("glued-comment")
+	v.NonTrivial = true
+	diff := func(text string, w *gen.Script) string {
+		got, nerr, firstErr, pan, convErr := parseAndConvert(text)
+		switch {
+		case pan != "":
+			return "panic: " + firstLines(pan, 4)
+		case nerr != 0:
+			return "rejected: " + firstErr
+		case convErr != nil:
+			return "hole in the tree: " + convErr.Error()
+		}
+		return gen.Compare(w, got, true)
+	}
+	d := diff(p.Text, want)
+	if d == "" {
+		return v
+	}
+	// is the gluing the only cause? the same layout with a blank before those comments must be fine
+	want2 := c.Script.Clone()
+	p2 := gen.Print(want2, &gen.GlueLayout{Seps: c.Seps, Pad: true})
+	class := "glued-comment-other"
+	if p2.LexMatches() && diff(p2.Text, want2) == "" {
+		class = "comment-glued-to-slash-token"
+	}
+	return v.Failf(class, "a comment directly after a token changes the tree: %q: %s", p.Text, d)
+}
+
 func checkC15(cc any) *ev.Verdict {
 	c := cc.(*C15Case)
 	v := &ev.Verdict{}
+	if c.Glue {
+		return checkGlued(c, v)
+	}
 	feats := c.Script.Features()
 	for _, f := range feats {
 		v.Label("has:" + f)
